@@ -194,11 +194,27 @@ def tlc(module, cfg, env_extra=None, workers=1, timeout_s=3600, extra=None, heap
     cmd += [module]
     t0 = time.time()
     try:
-        p = subprocess.run(["timeout", str(int(timeout_s))] + cmd, cwd=cwd or SPEC, env=env, stdout=subprocess.PIPE, stderr=subprocess.STDOUT, text=True)
+        p = subprocess.Popen(["timeout", str(int(timeout_s))] + cmd, cwd=cwd or SPEC, env=env, stdout=subprocess.PIPE, stderr=subprocess.STDOUT, text=True)
+        buf = []
+        seen_bad = False
+        cut_short = False
+        for line in p.stdout:
+            buf.append(line)
+            if '"BAD-SET"' in line:
+                seen_bad = True
+            # the monitor has printed its verdict set; the state-by-state listing that follows (tens of
+            # thousands of states, about a minute) adds nothing
+            if seen_bad and line.startswith("Error: The behavior up to this point is:"):
+                cut_short = True
+                p.terminate()   # `timeout` forwards SIGTERM to the JVM
+                break
+        p.wait()
     finally:
         pass
     wall = time.time() - t0
-    out = p.stdout
+    out = "".join(buf)
+    if cut_short:
+        p.returncode = 12
     shutil.rmtree(md, ignore_errors=True)
     if p.returncode == 124:
         raise ToolError("TLC timed out after %ds: %s" % (timeout_s, " ".join(cmd)))
@@ -232,11 +248,16 @@ _BAD_RE = re.compile(r'<<"(C\d+|CONF)",\s*"([^"]+)",\s*(\d+)>>')
 
 def parse_bad(out):
     """Extract the monitor's `bad` set from the last state TLC printed."""
-    i = out.rfind("/\\ bad =")
-    if i < 0:
-        return []
-    j = out.find("\n\n", i)
-    seg = out[i: j if j > 0 else len(out)]
+    i = out.find('"BAD-SET"')
+    if i >= 0:
+        j = out.find("Error:", i)
+        seg = out[i: j if j > 0 else len(out)]
+    else:
+        i = out.rfind("/\\ bad =")
+        if i < 0:
+            return []
+        j = out.find("\n\n", i)
+        seg = out[i: j if j > 0 else len(out)]
     return [(m.group(1), m.group(2), int(m.group(3))) for m in _BAD_RE.finditer(seg)]
 
 
